@@ -191,6 +191,61 @@ func fixturesMain() int {
 	}{{"NormCheckedIndex", true}, {"NormCheckedIndexBad", false}, {"NormLockStep", true}} {
 		expect("normalisation + prover "+c.name, proveAll(fn(c.name)), c.want)
 	}
+	// round-4 primitives: stride lemma, edge conditions, merged errors (both directions)
+	for _, c := range []struct {
+		name string
+		want bool
+	}{{"NormStrideGood", true}, {"NormStrideBad", false}, {"NormEdgeGood", true}, {"NormEdgeBad", false}} {
+		expect("round-4 prover "+c.name, proveAll(fn(c.name)), c.want)
+	}
+	{
+		// constant selector of an inlined helper: one live arm
+		var live []string
+		for _, st := range storesOf(fn("NormMode")) {
+			t := AddrTerm(st.Addr)
+			if i := strings.LastIndex(t, "."); i >= 0 && (strings.HasSuffix(t, ".a") || strings.HasSuffix(t, ".b") || strings.HasSuffix(t, ".c")) {
+				live = append(live, t[i+1:])
+			}
+		}
+		expect("dead arms of an inlined selector are not seen", strings.Join(live, ",") == "b", true)
+		// read-only table membership under a pinned key
+		tf := fn("NormTable")
+		count := func(k string) (int, string) {
+			ps, _ := Paths(tf, PathOpts{Assume: map[ssa.Value]string{tf.Params[0]: k}})
+			r := ""
+			for _, p := range ps {
+				if rt := p.Ret(); rt != nil {
+					r += Term(rt.Results[0])
+				}
+			}
+			return len(ps), r
+		}
+		n3, r3 := count("3")
+		n4, r4 := count("4")
+		expect("table membership decides the branch for a pinned key", n3 == 1 && r3 == "1" && n4 == 1 && r4 == "0", true)
+		// what holds when a merged error is nil
+		held := func(name string) bool {
+			ok := false
+			instrsOf(fn(name), func(in ssa.Instruction) {
+				if ia, isIA := in.(*ssa.IndexAddr); isIA {
+					ok = HoldsAt(ia.Block(), "p1 < len(p0)") && HoldsAt(ia.Block(), "p1 >= 0")
+				}
+			})
+			return ok
+		}
+		expect("merged error: the check's verdict survives a conditional overwrite", held("NormMergedErr"), true)
+		expect("merged error: an unconditional overwrite loses it", held("NormMergedErrBad"), false)
+		// clone idioms
+		cl := func(name string) bool {
+			ok := false
+			for _, rt := range returnsOf(fn(name)) {
+				ok = cloneOf(rt.Results[0], "p0")
+			}
+			return ok
+		}
+		expect("clone idiom append(b[:0:0], b...)", cl("NormClone"), true)
+		expect("append(b[:0], b...) is not a clone", cl("NormCloneBad"), false)
+	}
 	{
 		inl := 0
 		for _, n := range w.Inlined {
